@@ -23,13 +23,13 @@ def monoLine (t : RawTable) (m : Nat) : String :=
     let ok := monoAlongB (fun (a b : Rat) => decide (a ≤ b)) s1 n s2 (fun p => T.coef (p : Int))
     s!"mono={if ok then 1 else 0} s1={s1} n={n} s2={s2}"
 
-partial def loop (h out : IO.FS.Stream) (st : RawTable) : IO Unit := do
+partial def loop (h out : IO.FS.Stream) (st : Eval.DState) : IO Unit := do
   let line ← h.getLine
   if line.isEmpty then return ()
   let ws := words line
   match ws with
   | ["M", m] =>
-    out.putStrLn (match m.toNat? with | some m => monoLine st m | none => "bad-input")
+    out.putStrLn (match m.toNat? with | some m => monoLine st.raw m | none => "bad-input")
     loop h out st
   | _ =>
     let (st', o) := Eval.step st ws
